@@ -148,7 +148,7 @@ func (db *MultiBucketBackend) getBucketWithFilePrefixLocked(bucket string, prefi
 
 	// A prefix that does not lead to a directory matches no keys; that is an
 	// empty listing, not a missing bucket:
-	if isDir, err := afero.DirExists(db.bucketFs, filepath.FromSlash(bucketPath)); err != nil {
+	if isDir, err := dirExists(db.bucketFs, filepath.FromSlash(bucketPath)); err != nil {
 		return nil, err
 	} else if !isDir {
 		return response, nil
@@ -369,7 +369,7 @@ func (db *MultiBucketBackend) HeadObject(bucketName, objectName string) (*gofake
 	fullPath := path.Join(bucketName, objectName)
 
 	stat, err := db.bucketFs.Stat(filepath.FromSlash(fullPath))
-	if os.IsNotExist(err) {
+	if isNotExist(err) {
 		return nil, gofakes3.KeyNotFound(objectName)
 	} else if err != nil {
 		return nil, err
@@ -412,7 +412,7 @@ func (db *MultiBucketBackend) GetObject(bucketName, objectName string, rangeRequ
 	fullPath := path.Join(bucketName, objectName)
 
 	f, err := db.bucketFs.Open(filepath.FromSlash(fullPath))
-	if os.IsNotExist(err) {
+	if isNotExist(err) {
 		return nil, gofakes3.KeyNotFound(objectName)
 	} else if err != nil {
 		return nil, err
@@ -572,7 +572,7 @@ func (db *MultiBucketBackend) deleteObjectLocked(bucketName, objectName string) 
 
 	// S3 does not report an error when attemping to delete a key that does not exist, so
 	// we need to skip IsNotExist errors.
-	if err := db.bucketFs.Remove(filepath.FromSlash(fullPath)); err != nil && !os.IsNotExist(err) {
+	if err := db.bucketFs.Remove(filepath.FromSlash(fullPath)); err != nil && !isNotExist(err) {
 		return err
 	}
 	removeEmptyDirs(db.bucketFs, bucketName, path.Dir(objectName))
